@@ -508,15 +508,19 @@ class RaggedArray(IndexableArray, np.lib.mixins.NDArrayOperatorsMixin):
         return np.minimum.reduce(self, axis=1)
 
     @reduction(allowed_axis=(1, -1))
-    def argmax(self):
-        m = self.max(axis=-1, keepdims=True)
-        rows, cols = np.nonzero(self == m)
-        _, idxs = np.unique(rows, return_index=True)
-        return cols[idxs]
+    def argmax(self, axis=-1):
+        return self._arg_extremum(self.max(axis=-1, keepdims=True))
 
     @reduction(allowed_axis=(-1, 1))
-    def argmin(self, axis=None):
-        return (-self).argmax(axis=-1)
+    def argmin(self, axis=-1):
+        return self._arg_extremum(self.min(axis=-1, keepdims=True))
+
+    def _arg_extremum(self, extremum):
+        rows, cols = np.nonzero(self == extremum)
+        rows, idxs = np.unique(rows, return_index=True)
+        result = np.zeros(len(self), dtype=cols.dtype)
+        result[rows] = cols[idxs]
+        return result
 
     def cumsum(self, axis: int = None, dtype: npt.DTypeLike = None) -> 'RaggedArray':
         """Return an array with cumulative sums along the given axis
